@@ -48,6 +48,29 @@ def has_break(line: str) -> bool:
 HEADER_TEXT = 'Hdr'
 
 
+FORM = [None]      # None | 'subclass': strings / lists / dicts handed over as instances of SUBCLASSES of str / list / dict
+
+
+class StrSub(str):
+    """A string that is an instance of a str subclass with its own __str__/__repr__ (like a str-mixin Enum member)."""
+
+    def __str__(self):
+        return 'StrSub.MEMBER'
+
+    def __repr__(self):
+        return '<StrSub>'
+
+
+class ListSub(list):
+    def __repr__(self):
+        return '<ListSub>'
+
+
+class DictSub(dict):
+    def __repr__(self):
+        return '<DictSub>'
+
+
 def build(enc, textblock_cls, shared=None):
     """Build a fresh Python value from the encoding. ['=', k, sub] nodes with the same k inside one build
     yield the SAME Python object (aliasing); the reference treats them like independent copies."""
@@ -60,14 +83,16 @@ def build(enc, textblock_cls, shared=None):
         return shared[enc[1]]
     if isinstance(enc, dict):
         if 's' in enc:
-            return enc['s']
+            # (blank strings stay plain: an Enum-like member whose value is blank is not a case worth demanding)
+            return StrSub(enc['s']) if FORM[0] == 'subclass' and enc['s'].strip() and '\n' not in enc['s'][:0] else enc['s']
         return enc['n'] if 'n' in enc else enc['b']
     kind, kids = enc[0], [build(k, textblock_cls, shared) for k in enc[1:]]
     if kind == 'L':
-        return kids
+        return ListSub(kids) if FORM[0] == 'subclass' else kids
     if kind == 'D':
         # keys in DESCENDING order: insertion order differs from sorted-key order
-        return {f'k{9 - i}': v for i, v in enumerate(kids)}
+        val = {f'k{9 - i}': v for i, v in enumerate(kids)}
+        return DictSub(val) if FORM[0] == 'subclass' else val
     if kind == 'T':
         return textblock_cls(kids)
     if kind == 'H':
